@@ -47,7 +47,7 @@ var checks = []Check{
 		Assumptions: append([]string{"recording processors (each owns a real host.Set) stand in for the real TCP/Redis processors", "the store's handlers are driven through injected wrappers instead of a live gRPC stream"}, engineAssumptions...),
 		Jobs: []Job{
 			{Pkg: "controller", Scenarios: []string{"C08/histories"}, Shards: 16, QuickS: 100, ThoroughS: 900},
-			{Pkg: "controller", Scenarios: []string{"C08/race"}, Shards: 16, QuickS: 60, ThoroughS: 600},
+			{Pkg: "controller", Scenarios: []string{"C08/race", "C08/streams"}, Shards: 16, QuickS: 60, ThoroughS: 600},
 		},
 	},
 	{
